@@ -1,0 +1,1 @@
+//! Facade for `service/ip_vote.rs`.
